@@ -383,3 +383,14 @@ class ConcatIndexed(ConcatUnindexed):
 
     def _broadcast_dep(self, dep: Expr):
         return dep.npartitions == 1
+
+    def _divisions(self):
+        dfs = self.dependencies()
+        if {df.npartitions for df in dfs} == {1}:
+            # Every input is broadcast: the single output partition holds the
+            # index values of all of them (same rule as ``Concat._divisions``)
+            if not all(df.known_divisions for df in dfs):
+                return (None, None)
+            divisions = set(flatten([df.divisions for df in dfs], container=tuple))
+            return min(divisions), max(divisions)
+        return super()._divisions()
